@@ -41,12 +41,13 @@ MakeParent(pk, decoded, P, sig, pay) ==
   ELSE <<[op |-> "new", obj |-> "par", kind |-> pk, m |-> ParentM(pk, P, sig, pay)]>>
 
 Mutations(pk) ==
-  {"none", "setsig", "setprot", "setunprot"} \cup (IF pk \in {"sign1", "sign"} THEN {"setpayload", "detach"} ELSE {})
+  {"none", "setsig", "setprot", "setunprot", "unprotclash"} \cup (IF pk \in {"sign1", "sign"} THEN {"setpayload", "detach"} ELSE {})
 MutStep(pk, mu) ==
   CASE mu = "none" -> <<>>
     [] mu = "setsig" -> <<[op |-> "setsig", obj |-> "par", slot |-> 0, sig |-> ParSig2]>>
     [] mu = "setprot" -> <<[op |-> "setprot", obj |-> "par", m |-> [P |-> P2, U |-> <<>>]]>>
     [] mu = "setunprot" -> <<[op |-> "setunprot", obj |-> "par", m |-> [P |-> <<>>, U |-> U2]]>>
+    [] mu = "unprotclash" -> <<[op |-> "setunprot", obj |-> "par", m |-> [P |-> <<>>, U |-> <<<<GoInt("int64", 5), GoBytes(<<1>>)>>, <<GoInt("int64", 6), GoBytes(<<2>>)>>, <<GoInt("int64", 4), GoInt("int64", 3)>>>>]]>>
     [] mu = "setpayload" -> <<[op |-> "setpayload", obj |-> "par", payload |-> Pay2]>>
     [] mu = "detach" -> <<[op |-> "setpayload", obj |-> "par", payload |-> NilPayload]>>
 
